@@ -119,7 +119,10 @@ pub fn write_jsonl_par<T: Serialize + Send + Sync>(
     }
     let n = data.len();
     if n == 0 {
-        File::create(path)?; // touch
+        // empty data set: still a valid (possibly compressed) file for the path's extension
+        let mut out = auto_detect_writer(File::create(path)?, path)
+            .with_context(|| format!("setup compression for {}", path.display()))?;
+        out.flush()?;
         return Ok(0);
     }
     let shards = shards.unwrap_or_else(|| num_cpus::get().max(2)).clamp(1, n);
@@ -146,7 +149,8 @@ pub fn write_jsonl_par<T: Serialize + Send + Sync>(
         })?;
 
     // concat in order
-    let mut out = BufWriter::new(File::create(path)?);
+    let mut out = auto_detect_writer(File::create(path)?, path)
+        .with_context(|| format!("setup compression for {}", path.display()))?;
     for p in &shard_paths {
         let mut r = BufReader::new(File::open(p)?);
         copy(&mut r, &mut out)?;
